@@ -47,7 +47,7 @@ DEFAULTS = dict(
     ScalDef={"name": "s0", "binary_path": "s0", "isa": "E0", "file_format": "E0", "byte_order": "E0",
              "preferred_addr": "0", "rebase_delta": "0", "at_end": "F", "decode_mode": "E0", "xoffset": "0",
              "xscale": "1"},
-    ExprKind=Raw("[e \\in {} |-> \"ac\"]"), ExprSym2=Raw("[e \\in {} |-> \"none\"]"), Symx0=set(), Cfg0=set(), Pay0=set(), Entry0=set(), ReloadWeight=1, SweepOps={"reload"}, SweepMode=False,
+    ExprKind={}, ExprSym2={}, Symx0=set(), Cfg0=set(), Pay0=set(), Entry0=set(), ReloadWeight=1, SweepOps={"reload"}, SweepMode=False,
 )
 
 TREE_KEYS = {"mods", "kids", "par", "cache", "irof", "modof", "secof", "agg"}
